@@ -103,7 +103,10 @@ def round3_shapes(emit):
         if n != want:
             raise ExtractError(f"{rel}: ExprParams::new occurs {n} times, expected {want} (checked list + empty list)")
     # 2. pending markers of get_idx: Model/TotalKern.lean::enter
-    extract.find(OBJ, r"Entry::Occupied\(mut v\) => match v\.get\(\) \{\s*CacheValue::Cached\(v\) => return v\.clone\(\),\s*CacheValue::Pending => \{\s*if !is_asserting\(self\) \{\s*bail!\(InfiniteRecursionDetected\);\s*\}(?:\s*//[^\n]*)*\s*v\.insert\(CacheValue::PendingAsserting\);\s*\}\s*CacheValue::PendingAsserting => bail!\(InfiniteRecursionDetected\),\s*\},\s*Entry::Vacant\(v\) => \{\s*v\.insert\(CacheValue::Pending\);")
+    # get_idx: assertions first, then the marker match (Pending = self-dependence, no escape)
+    extract.find(OBJ, r"fn get_idx\(&self, key: IStr, core: CoreIdx\) -> Result<Option<Val>> \{(?:\s*//[^\n]*)*\s*self\.run_assertions\(\)\?;\s*let cache_key = \(key\.clone\(\), core\);")
+    extract.find(OBJ, r"Entry::Occupied\(v\) => match v\.get\(\) \{\s*CacheValue::Cached\(v\) => return v\.clone\(\),\s*CacheValue::Pending => bail!\(InfiniteRecursionDetected\),\s*\},\s*Entry::Vacant\(v\) => \{\s*v\.insert\(CacheValue::Pending\);")
+    extract.find(OBJ, r"fn get_idx_uncached\(&self, key: IStr, core: CoreIdx\) -> Result<Option<Val>> \{\s*let mut first_add = None;")
     # 3. native value walkers recurse inside in_description_frame
     walkers = [
         (ARRS, r"in_description_frame\(\s*\|\| format!\(\"elem <\{i\}> joining\"\),\s*\|\| deep_join_inner\(out, indexable\),\s*\)\?"),
